@@ -529,16 +529,22 @@ func (p *parser) readStr(term byte) string {
 
 func (p *parser) readRegex() *regexp.Regexp {
 	start := p.pos
+	terminated := false
 out:
 	for p.pos < len(p.buf) {
 		b := p.buf[p.pos]
 		p.pos++
 		switch b {
 		case '/':
+			terminated = true
 			break out
 		case '\\':
 			p.pos++ // skip and then continue
 		}
+	}
+	if !terminated || len(p.buf) < p.pos {
+		p.pos = len(p.buf)
+		p.raise("not terminated")
 	}
 	rx, err := regexp.Compile(string(p.buf[start : p.pos-1]))
 	if err != nil {
